@@ -48,7 +48,8 @@ def parseCert (p : List String) : Option Cert :=
   | ["pret"] => some .pret | ["vdeleg"] => some .vdeleg
   | ["preg", st, id] => do
     let id ← parseNat? id
-    if st = "n" then some (.preg true id) else if st = "o" then some (.preg false id) else none
+    if st = "n" then some (.preg true id) else if st = "o" then some (.preg false id)
+    else if st = "r" then some (.pregRetiring id) else none
   | ["reg", a] => (parseNat? a).map .reg
   | ["srd", a] => (parseNat? a).map .srd
   | ["vrd", a] => (parseNat? a).map .vrd
@@ -96,7 +97,7 @@ def parseItems : List String → Acc → Option Acc
     | _ => none
 
 def legacy : Cert → Bool
-  | .sreg | .sdereg | .sdeleg | .pret | .preg _ _ => true
+  | .sreg | .sdereg | .sdeleg | .pret | .preg _ _ | .pregRetiring _ => true
   | _ => false
 
 def handle (line : String) : GV.Line.Out :=
